@@ -127,14 +127,16 @@ impl From<FileLen> for usize {
 
 impl Add for FileLen {
     type Output = FileLen;
+    /// The sum of the lengths of many (sparse) files can exceed the range of the type.
+    /// It stops at the maximum then, it doesn't start from zero again.
     fn add(self, rhs: Self) -> Self::Output {
-        FileLen(self.0 + rhs.0)
+        FileLen(self.0.saturating_add(rhs.0))
     }
 }
 
 impl AddAssign for FileLen {
     fn add_assign(&mut self, rhs: Self) {
-        self.0 += rhs.0
+        self.0 = self.0.saturating_add(rhs.0)
     }
 }
 
@@ -154,7 +156,7 @@ impl SubAssign for FileLen {
 impl Mul<u64> for FileLen {
     type Output = FileLen;
     fn mul(self, rhs: u64) -> Self::Output {
-        FileLen(self.0 * rhs)
+        FileLen(self.0.saturating_mul(rhs))
     }
 }
 
